@@ -10,6 +10,7 @@ import os
 import re
 import shutil
 import subprocess
+import threading
 import sys
 import time
 
@@ -70,17 +71,38 @@ def build(need_cli=False):
     return time.time() - t0
 
 
+class HarnessHang(ToolError):
+    """The harness' watchdog fired: the code under test was still working on ONE case after the wall-clock limit.
+    `.case` describes the case. Whether that is a verdict depends on the property (C05: yes)."""
+    def __init__(self, case, args):
+        ToolError.__init__(self, "code under test does not terminate on a case of %r: %s" % (args, case[:300]))
+        self.case = case
+
+
+_hang_seq = [0]
+
+
 def harness(args, timeout=1800, stdin_data=None):
     """Run the harness; returns the JSON summary it prints as its last stdout line."""
     errlog = open(os.path.join(WORK, "harness.stderr"), "ab")
+    _hang_seq[0] += 1
+    hang_file = os.path.join(WORK, "hang_%d_%d_%d.json" % (os.getpid(), threading.get_ident(), _hang_seq[0]))
+    env = dict(os.environ)
+    env["VERIF_HANG_FILE"] = hang_file
     try:
         r = subprocess.run([HARNESS_BIN] + [str(a) for a in args], stdout=subprocess.PIPE, stderr=errlog,
                            stdin=subprocess.DEVNULL if stdin_data is None else None,
-                           input=stdin_data, timeout=timeout)
+                           input=stdin_data, timeout=timeout, env=env)
     except subprocess.TimeoutExpired:
         raise ToolError("harness timed out: %r" % (args,))
     finally:
         errlog.close()
+    if r.returncode == 3 and os.path.exists(hang_file):
+        try:
+            case = json.load(open(hang_file)).get("hang", "?")
+        finally:
+            os.remove(hang_file)
+        raise HarnessHang(case, args)
     if r.returncode != 0:
         raise ToolError("harness failed (%d): %r\n%s" % (r.returncode, args, r.stdout[-2000:]))
     # the code under test prints to the same stdout; the summary is the last line
